@@ -535,6 +535,12 @@ def ds_max_trial_id(it, args, kw):
         raise _malformed(it)
     if not it.truth(is_some(S_STUDY(), run.ghost['D.study'][n])):
         raise not_found(it, 'study')
+    return max_id_of(it, n)
+
+
+def max_id_of(it, n):
+    """ghost: the largest trial id of study n in the current view (0 if none)."""
+    run = it.run
     T = S_TRIAL()
     m = run.fresh('max_id', z3.IntSort())
     k = z3.Const('k!mx', Name)
